@@ -24,7 +24,7 @@ Record rquirks := {
   q_for_header_in_loop  : bool;  (* the iterator expression of `for` counts as inside the loop *)
   q_clone_first_pattern : bool;  (* a clone is classified before the detect_* switches are consulted *)
   q_net_bare_type       : bool;  (* call-path patterns exactly as in the source (true) / plus the NetType::method form
-                                    (false).  Since e1a1fd7 the source has that form. *)
+                                    (false).  The source lacks that form (e1a1fd7 added it, a07d81a removed it again). *)
 }.
 Definition ideal : rquirks := Build_rquirks false false false false false false false false.
 
